@@ -333,7 +333,7 @@ func (cs *ContractSet) LoadFile(file, pkgPath string, trusted bool) error {
 		default:
 			return fail(it, "cannot parse %q", it.text)
 		}
-		if strings.Contains(it.text, "assume ") || strings.HasPrefix(it.text, "assume") {
+		if strings.HasPrefix(it.text, "assume ") {
 			cs.Assumes = append(cs.Assumes, fmt.Sprintf("%s:%d", file, it.line))
 		}
 	}
